@@ -4,43 +4,19 @@ package main
 // scheduler, so they live in a fixed array touched only by //go:norace code.
 
 const (
-	prSiteBase = 0 // one per yield site: how often the site was reached by a scheduled task
+	prSiteBase      = 0 // one per yield site: how often the site was reached
 	prOrderPermuted = maxSites + iota
-	prCacheHit
-	prCacheHitWhileOtherMidChain
-	prCacheStore
-	prEvictionObserved
 	prTwoInDispatch
-	prCtxReuse
-	prCtxReuseAfterPanic
-	prCtxReuseAfterAbort
-	prLongChain
-	prCacheFaultApplied
-	prCacheFaultNoop
-	prPreemptions
-	prPanicWhileOthersParked
-	prAbortWhileOthersParked
-	prWriterFaultFired
+	prCacheHitWhileOtherMidChain
+	prEvictionObserved
 	prEnd
 )
 
 var probeNames = map[int]string{
-	prOrderPermuted:              "order-permuted",
-	prCacheHit:                   "cache-hit",
-	prCacheHitWhileOtherMidChain: "cache-hit-while-another-request-mid-chain",
-	prCacheStore:                 "cache-store",
-	prEvictionObserved:           "cache-eviction",
-	prTwoInDispatch:              "two-tasks-between-chain-assembly-and-first-handler",
-	prCtxReuse:                   "context-reused",
-	prCtxReuseAfterPanic:         "context-reused-after-panic",
-	prCtxReuseAfterAbort:         "context-reused-after-abort",
-	prLongChain:                  "chain-33-or-longer",
-	prCacheFaultApplied:          "cache-loss-fault-removed-an-entry",
-	prCacheFaultNoop:             "cache-loss-fault-found-nothing",
-	prPreemptions:                "preemptions",
-	prPanicWhileOthersParked:     "panic-while-others-parked-mid-chain",
-	prAbortWhileOthersParked:     "abort-while-others-parked-mid-chain",
-	prWriterFaultFired:           "writer-fault-fired",
+	prOrderPermuted:              "allowed-methods-order-permuted",
+	prTwoInDispatch:              "two-requests-parked-between-chain-assembly-and-their-first-handler",
+	prCacheHitWhileOtherMidChain: "cache-hit-while-another-request-is-parked-inside-its-handler-chain",
+	prEvictionObserved:           "cache-entry-evicted-by-capacity",
 }
 
 var probes [prEnd]int64
